@@ -316,8 +316,8 @@ fn exact_f64_of_digits(ds: &[u8], bpd: u32) -> Option<u64> {
     Some(((1023 + exp) << 52) | (q - (1u64 << 52)))
 }
 
-/// (digits, bits per digit) of the liberal prefixed reading: 0x 0X 0b 0B 0, one optional '+', >= 1 digits of the radix
-fn liberal_prefixed_digits(t: &[u8]) -> Option<(&[u8], u32)> {
+/// (negative, digits, bits per digit) of the liberal prefixed reading: 0x 0X 0b 0B 0, one optional sign, >= 1 digits of the radix
+fn liberal_prefixed_digits(t: &[u8]) -> Option<(bool, &[u8], u32)> {
     let (r, bpd, rest): (u32, u32, &[u8]) = if t.starts_with(b"0x") || t.starts_with(b"0X") {
         (16, 4, &t[2..])
     } else if t.starts_with(b"0b") || t.starts_with(b"0B") {
@@ -327,9 +327,13 @@ fn liberal_prefixed_digits(t: &[u8]) -> Option<(&[u8], u32)> {
     } else {
         return None;
     };
-    let ds = if rest.first() == Some(&b'+') { &rest[1..] } else { rest };
+    let (neg, ds) = match rest.first() {
+        Some(b'+') => (false, &rest[1..]),
+        Some(b'-') => (true, &rest[1..]),
+        _ => (false, rest),
+    };
     if !ds.is_empty() && ds.iter().all(|c| digit_of(*c).map(|d| d < r).unwrap_or(false)) {
-        Some((ds, bpd))
+        Some((neg, ds, bpd))
     } else {
         None
     }
@@ -472,8 +476,8 @@ fn observe(w: &World, case: &str, st: &mut Stats) {
                     } else {
                         // decimal forms: the std conversion is the reference (oracle: correctly rounded).
                         // outside the lexical forms the result may be nothing, or the liberal reading:
-                        // radix prefix, one optional '+', digits (exact), or the decimal reading of std
-                        let libf = liberal_prefixed_digits(&raw).map(|(ds, bpd)| exact_f64_of_digits(ds, bpd));
+                        // radix prefix, one optional sign, digits (exact), or the decimal reading of std
+                        let libf = liberal_prefixed_digits(&raw).map(|(neg, ds, bpd)| exact_f64_of_digits(ds, bpd).map(|b| if neg { b | (1u64 << 63) } else { b }));
                         st.class(if in16 {
                             "float:decimal-in-regex16"
                         } else if libf.is_some() {
@@ -595,6 +599,22 @@ fn observe(w: &World, case: &str, st: &mut Stats) {
                 _ => "na".to_string(),
             };
             println!("{} => {} ser={} std={}", case, ts.as_ref().map(|s| hex(s.as_bytes())).unwrap_or("PANIC".into()), ser, std);
+            // direct oracle: numbers are printed as std prints them, enum items by their table text; serialize_internal
+            // writes the same text for everything but strings
+            if let Ok(t) = &ts {
+                let want = match &v {
+                    CharacterData::Enum(e) => e.to_str().to_string(),
+                    CharacterData::String(s) => s.clone(),
+                    CharacterData::UnsignedInteger(n) => n.to_string(),
+                    CharacterData::Float(x) => x.to_string(),
+                };
+                if *t != want {
+                    fail(st, "to-string", case, &format!("got {:?} expected {:?}", t, want));
+                }
+                if hook::AVAILABLE && !matches!(v, CharacterData::String(_)) && ser != hex(t.as_bytes()) {
+                    fail(st, "serialize", case, "serialize_internal differs from to_string for a non-string value");
+                }
+            }
             if let (Ok(ts), CharacterData::UnsignedInteger(n)) = (&ts, &v) {
                 // u64 print -> parse, through the library's own integer reading
                 let back = CharacterData::String(ts.clone()).parse_integer::<u64>();
@@ -633,10 +653,56 @@ fn observe(w: &World, case: &str, st: &mut Stats) {
                 };
                 let r = g(|| hook::parse(&text, spec, ver));
                 let extra = if let CharacterDataSpec::Float = spec { format!(" std={}", bits_s(text.parse::<f64>().ok())) } else { String::new() };
-                match r {
-                    Ok(Some(v)) => println!("{} => {}{}", case, value_s(&v), extra),
+                match &r {
+                    Ok(Some(v)) => println!("{} => {}{}", case, value_s(v), extra),
                     Ok(None) => println!("{} => -{}", case, extra),
                     Err(_) => println!("{} => PANIC{}", case, extra),
+                }
+                // direct oracle: what parse accepts is exactly what check_value accepts for the value the text denotes
+                // (spec tables read directly: item list + version mask, max_length inclusive, check_fn), numbers = std
+                let got = r.unwrap_or(None);
+                let want: Option<CharacterData> = match spec {
+                    CharacterDataSpec::Enum { items } => items
+                        .iter()
+                        .find(|(i, _)| i.to_str() == text)
+                        .filter(|(_, mask)| mask & (ver as u32) != 0)
+                        .map(|(i, _)| CharacterData::Enum(*i)),
+                    CharacterDataSpec::Pattern { check_fn, max_length, .. } => {
+                        if max_length.map(|m| text.len() <= m).unwrap_or(true) && check_fn(text.as_bytes()) {
+                            Some(CharacterData::String(text.clone()))
+                        } else {
+                            None
+                        }
+                    }
+                    CharacterDataSpec::String { max_length, .. } => {
+                        if max_length.map(|m| text.len() <= m).unwrap_or(true) {
+                            Some(CharacterData::String(text.clone()))
+                        } else {
+                            None
+                        }
+                    }
+                    CharacterDataSpec::UnsignedInteger => text.parse::<u64>().ok().map(CharacterData::UnsignedInteger),
+                    CharacterDataSpec::Float => text.parse::<f64>().ok().map(CharacterData::Float),
+                };
+                let same = match (&got, &want) {
+                    (Some(a), Some(b)) => same_value(a, b),
+                    (None, None) => true,
+                    _ => false,
+                };
+                st.class(match spec {
+                    CharacterDataSpec::Enum { .. } => "parse:enum",
+                    CharacterDataSpec::Pattern { .. } => "parse:pattern",
+                    CharacterDataSpec::String { .. } => "parse:string",
+                    CharacterDataSpec::UnsignedInteger => "parse:uint",
+                    CharacterDataSpec::Float => "parse:float",
+                });
+                if !same {
+                    fail(st, "parse", case, &format!("got {:?} but the specification entry admits {:?}", got.as_ref().map(value_s), want.as_ref().map(value_s)));
+                }
+                if let Some(v) = &got {
+                    if g(|| hook::check(v, spec, ver)) != Ok(true) {
+                        fail(st, "parse-check", case, "the parsed value is rejected by check_value with the same spec and version");
+                    }
                 }
                 return;
             }
@@ -650,6 +716,20 @@ fn observe(w: &World, case: &str, st: &mut Stats) {
             let ok = g(|| hook::check(&v, spec, ver));
             if f[0] == "CHK" {
                 println!("{} => {}", case, match ok { Ok(true) => "1", Ok(false) => "0", Err(_) => "PANIC" });
+                // direct oracle: check_value against the specification entry read directly
+                let want = match (spec, &v) {
+                    (CharacterDataSpec::Enum { items }, CharacterData::Enum(e)) => items.iter().any(|(i, mask)| i == e && mask & (ver as u32) != 0),
+                    (CharacterDataSpec::Pattern { check_fn, max_length, .. }, CharacterData::String(s)) => {
+                        max_length.map(|m| s.len() <= m).unwrap_or(true) && check_fn(s.as_bytes())
+                    }
+                    (CharacterDataSpec::String { max_length, .. }, CharacterData::String(s)) => max_length.map(|m| s.len() <= m).unwrap_or(true),
+                    (CharacterDataSpec::UnsignedInteger, CharacterData::UnsignedInteger(_)) => true,
+                    (CharacterDataSpec::Float, CharacterData::Float(_)) => true,
+                    _ => false,
+                };
+                if ok != Ok(want) {
+                    fail(st, "check-value", case, &format!("got {:?} but the specification entry says {}", ok, want));
+                }
                 return;
             }
             // RT: format, then parse with the same value type
@@ -1063,10 +1143,10 @@ fn gen(w: &World, seed: u64, thorough: bool) -> Vec<String> {
             CharacterDataSpec::Enum { items } => {
                 n_enum_specs += 1;
                 let full = thorough || n_enum_specs % 16 == 1;
-                let take = if full { items.len() } else { 2.min(items.len()) };
+                let take = if full { items.len() } else { 1 };
                 let mut chosen: Vec<usize> = (0..items.len()).collect();
                 if !full && items.len() > take {
-                    chosen = vec![rng.below(items.len() as u64) as usize, items.len() - 1];
+                    chosen = vec![rng.below(items.len() as u64) as usize];
                 }
                 for ii in chosen {
                     let (item, mask) = items[ii];
@@ -1107,7 +1187,7 @@ fn gen(w: &World, seed: u64, thorough: bool) -> Vec<String> {
                 }
             }
             CharacterDataSpec::Pattern { max_length, regex, .. } => {
-                let mut ts: Vec<String> = texts.iter().filter(|t| t.len() <= 12).step_by(if thorough { 7 } else { 97 }).cloned().collect();
+                let mut ts: Vec<String> = texts.iter().filter(|t| t.len() <= 12).step_by(if thorough { 7 } else { 151 }).cloned().collect();
                 ts.extend(strings.iter().cloned());
                 for m in ["0", "1", "true", "false", "ABC", "abc", "a1_b", "A", "_x", "/a/b", "/a/b/c_d", "a/b", "2024-01-31", "2024-01-31T12:00:00Z", "%d", "%08.3f", "1.2.3", "1.2.3-rc.1+b",
                     "ANY", "ALL", "STRING", "ARRAY", "MAX-TEXT-SIZE", "-1", "192.168.0.1", "256.1.1.1", "01:23:45:67:89:ab", "a.b[0].c", "A[0]", "0x1F", "0b101", "017", "+7", "-7", "1.5e3", "INF", "-INF", "NaN",
@@ -1125,7 +1205,9 @@ fn gen(w: &World, seed: u64, thorough: bool) -> Vec<String> {
                     let v = if rng.below(2) == 0 { vfirst } else { vlast };
                     cases.push(format!("PARSE {} {} {}", si, v, hex(t.as_bytes())));
                     cases.push(format!("CHK {} {} S:{}", si, v, hex(t.as_bytes())));
-                    cases.push(format!("RT {} {} S:{}", si, v, hex(t.as_bytes())));
+                    if thorough || cases.len() % 2 == 0 {
+                        cases.push(format!("RT {} {} S:{}", si, v, hex(t.as_bytes())));
+                    }
                 }
                 cases.push(format!("CHK {} {} U:1", si, vlast));
                 cases.push(format!("CHK {} {} F:3ff0000000000000", si, vlast));
@@ -1141,7 +1223,7 @@ fn gen(w: &World, seed: u64, thorough: bool) -> Vec<String> {
                 cases.push(format!("CHK {} {} F:0000000000000000", si, vlast));
             }
             CharacterDataSpec::UnsignedInteger => {
-                for t in texts.iter().filter(|t| t.len() <= 24).step_by(if thorough { 1 } else { 5 }) {
+                for t in texts.iter().filter(|t| t.len() <= 24).step_by(if thorough { 1 } else { 9 }) {
                     cases.push(format!("PARSE {} {} {}", si, vlast, hex(t.as_bytes())));
                 }
                 for v in u64s.iter() {
@@ -1153,7 +1235,7 @@ fn gen(w: &World, seed: u64, thorough: bool) -> Vec<String> {
                 cases.push(format!("CHK {} {} E:{}", si, vlast, some_items[0]));
             }
             CharacterDataSpec::Float => {
-                for t in texts.iter().filter(|t| t.len() <= 24).step_by(if thorough { 1 } else { 5 }).chain(ftexts.iter()) {
+                for t in texts.iter().filter(|t| t.len() <= 24).step_by(if thorough { 1 } else { 9 }).chain(ftexts.iter()) {
                     cases.push(format!("PARSE {} {} {}", si, vlast, hex(t.as_bytes())));
                 }
                 for b in floats.iter() {
